@@ -71,7 +71,8 @@ def handleC17 (op : String) (input impl : Json) : Except String Json := do
     let viol :=
       (if resClass impl == "panic" then ["never-panics"] else []) ++
       (if alloc ≤ perByte * b.length + slack then [] else ["allocation-proportional-to-input"]) ++
-      (if dangling == 0 then [] else ["nothing-rejected-left-referenced"])
+      (if dangling == 0 then [] else ["nothing-rejected-left-referenced"]) ++
+      (if (fldD impl "invalidStored" (jNat 0)).getNat?.toOption.getD 0 == 0 then [] else ["nothing-rejected-left-stored"])
     return reply Json.null (resClass impl != "panic") viol
   | _ => throw s!"unknown op {op}"
 
